@@ -1640,3 +1640,46 @@ PROPS["C20"] = {
                     "raw store differences that neither the exports, nor the queries, nor the follow-up operations can see "
                     "(storage of code-less accounts, re-stamped creation blocks) are not violations of the property as stated"],
 }
+
+
+# ------------------------------------------------------------------------------------------------ C01 replicated determinism
+def oracle_c01(run, ops, impl):
+    out = []
+    for i, (op, ob) in enumerate(zip(ops, impl)):
+        if ob.startswith("DIFFER"):
+            kv = dict(x.split("=", 1) for x in ob.split() if "=" in x)
+            stores = sorted({s.split(":")[0] for s in plist(kv.get("stores", "-"))})
+            what = ob.split()[1]
+            kinds = sorted({re.sub(r"\(r\d+\)", "", w).split(":")[0] for w in what.split(",")})
+            kinds = ["tx-result" if k.startswith("tx") else k for k in kinds]
+            out.append(V("C01:replicas-diverge:%s:stores=%s" % ("+".join(sorted(set(kinds))), "+".join(stores) or "-"),
+                         {"line": i + 1, "op": op[:400], "obs": ob[:400]}))
+    # a divergence persists in every later block: report the first one per signature only
+    seen, uniq = set(), []
+    for v in out:
+        if v["signature"] not in seen:
+            seen.add(v["signature"])
+            uniq.append(v)
+    return uniq
+
+
+PROPS["C01"] = {
+    "modules": ["NibiruProofs.C01"],
+    "prefix": "C01_",
+    "mapranges": True,
+    "runs": [{"model": "replicas", "n_quick": 40, "n_thorough": 400, "thorough_seeds": 6, "no_model": True, "per_line": True,
+              "nontrivial": r"^agree ok=[1-9]"}],
+    "oracle": oracle_c01,
+    "fact_obligations": ["fact_C01_map_range_sites", "fact_C01_to_slice_consumers", "fact_C01_goroutines_and_clock", "fact_C01_leak_is_contained"],
+    "rule": "three real NibiruApp instances in one process, initialised from the same genesis (three validators), fed the same blocks "
+            "of encoded transactions through BeginBlock/DeliverTx/EndBlock/Commit: sudoers edits adding/removing several contracts, "
+            "oracle prevotes and reveals by two validators across vote periods (tally, miss counters, rewards), deployments and calls of "
+            "generated multi-frame EVM programs (several new accounts and storage slots per tx, self-destructs, creates), FunToken "
+            "creation and conversions, token-factory denoms, bank sends, block times that cross epoch boundaries (inflation hooks). Go "
+            "randomises map iteration per range statement, so the replicas see different orders. Per height: app hash, "
+            "DeliverTx {code, data, gas wanted, gas used} and validator updates must be equal on all replicas; on a mismatch the raw KV "
+            "of every store is diffed to localise. non-trivial = a block with at least one successful tx on which the replicas agree",
+    "assumptions": ["that each map-range site's loop body has the shape of its class is validated by the replica run, not proved",
+                    "determinism of the SDK, IAVL, wasmvm, the go-ethereum interpreter and the Go runtime is trusted",
+                    "event order and tx logs are not part of the compared data (they are not hashed by consensus)"],
+}
